@@ -219,12 +219,15 @@ func (d *drv) trace(id int, a common.Args) {
 	signers := []string{"sharder", "sharder", "self", "miner", "exsharder", "unknown"}
 	for i := 0; i < a.Steps; i++ {
 		burst := 1
-		if d.r.Intn(4) == 0 {
-			burst = 2 + d.r.Intn(2) // several inputs before the worker is observed: exercises the drain loops
+		if id%3 == 0 && d.r.Intn(3) == 0 {
+			// every third trace: several inputs before the worker is observed (exercises the drain
+			// loops; how the worker batches them is up to the scheduler). The other traces are
+			// strictly one input per observation, hence fully deterministic.
+			burst = 2 + d.r.Intn(2)
 		}
 		for j := 0; j < burst; j++ {
-			// rounds around the current one: below, equal, just above, far above
-			r := cur + int64(d.r.Intn(5)) - 1
+			// rounds around the current one: below, equal, above
+			r := cur + int64(d.r.Intn(5)) - 2
 			if r < 1 {
 				r = 1
 			}
